@@ -659,6 +659,65 @@ func TestVerif_C16(t *testing.T) {
 			r.Count("pledge_ahead_of_the_clock_finalized", 1)
 		}
 	}()
+	// 6. a withdrawal submission that takes an asset's whole recorded total (one deposit of a fresh asset, then its only
+	// output withdrawn without change): validated, so it must finalize
+	func() {
+		a := verifgen.AssetInfo{Id: crypto.Sha256Hash([]byte(fmt.Sprintf("verif-c16-drain-%d", r.Seed))), Chain: common.EthereumAssetId, Key: "0x3333333333333333333333333333333333333333"}
+		units := big.NewInt(int64(1 + rng.Intn(5e9)))
+		dep, specs := w.Deposit(a, units)
+		if _, d := f.feedBatch(f.net.NodeIds[1+rng.Intn(len(f.net.NodeIds)-1)], []*common.VersionedTransaction{dep}, f.tick(uint64(1500*time.Millisecond))); !d.Finalized {
+			r.Count("draining_withdrawal_funding_not_finalized", 1)
+			return
+		}
+		ins := verifgen.OutsOf(dep, specs)
+		spec := verifgen.OutSpec{Type: common.OutputTypeWithdrawalSubmit, Amount: verifgen.Units(units), Withdrawal: &common.WithdrawalData{Address: "addr-drain", Tag: "t"}}
+		raw := verifgen.BuildTx(a.Id, ins, []verifgen.OutSpec{spec}, nil, nil)
+		wtx := verifgen.SignMap(raw, ins, verifgen.FirstN(ins))
+		chainId := f.net.NodeIds[1+rng.Intn(len(f.net.NodeIds)-1)]
+		snap, err := f.nextSnapshot(chainId, []crypto.Hash{wtx.PayloadHash()}, f.tick(uint64(1500*time.Millisecond)))
+		if err != nil {
+			r.Count("snapshot_build_skipped", 1)
+			return
+		}
+		_ = f.node.persistStore.CacheStoreTransaction(wtx)
+		var verr error
+		var missing []crypto.Hash
+		panicked, _, _ := verifkit.Guard(func() { _, missing, verr = f.node.validateSnapshotTransaction(snap, false) })
+		r.Eval()
+		if panicked || verr != nil || len(missing) > 0 {
+			r.Count("draining_withdrawal_rejected_by_validation", 1)
+			t.Logf("draining withdrawal rejected: %v", verr)
+			return
+		}
+		if _, err := f.sign(snap, 0); err != nil {
+			r.Count("sign_errors", 1)
+			return
+		}
+		r.Count("draining_withdrawal_validated", 1)
+		delivered++
+		r.Nontrivial(snap.Hash.String())
+		d := f.deliver(snap, []*common.VersionedTransaction{wtx})
+		if !d.Finalized && !d.Panicked && d.Err == nil {
+			d = f.deliver(snap, []*common.VersionedTransaction{wtx})
+		}
+		if d.Panicked || d.Err != nil {
+			site, msg := "error", fmt.Sprint(d.Err)
+			if d.Panicked {
+				site, msg = verifkit.PanicSite(d.Stack), fmt.Sprint(d.PanicVal)
+			}
+			r.Violation("C16|"+site+"|withdrawal-of-the-whole-recorded-total",
+				fmt.Sprintf("a withdrawal submission of an asset's whole recorded total passed the node's validation and failed to finalize (%s): %s", site, msg),
+				map[string]any{"site": site, "message": msg, "units": units.String()})
+			if err := f.restart(); err != nil {
+				t.Fatalf("restart after failed finalization: %v", err)
+			}
+			return
+		}
+		if d.Finalized {
+			finalizedCount++
+			r.Count("draining_withdrawal_finalized", 1)
+		}
+	}()
 	r.Note("snapshots_delivered", delivered)
 	r.Note("snapshots_finalized", finalizedCount)
 	r.Note("topology_at_end", f.node.TopologicalOrder())
